@@ -19,6 +19,8 @@
     - [breakup_roundtrip] / [roundtrip]: for every binary tree with distinct leaves and
       every pop order, rebuilding from the emitted triples gives the same clades;
       [tree_to_triples_total]: BreakUp never raises nor runs out of fuel;
+      [all_breakups_spec]: the enumerator used by the correspondence check lists exactly
+      the outcomes of [breakup] over all oracles;
     - [supertree_displays]: the tree built from the union of the triples of several
       binary trees displays every triple that any of them displays.
 
@@ -2142,4 +2144,54 @@ Proof.
   - intros choices. unfold tree_to_triples. destruct (breakup_total (size T) T BT (Nat.le_refl _) choices) as [r ->]. simpl. eauto.
   - destruct (breakup_first (size T) T BT (Nat.le_refl _)) as [ts E]. exists (repeat 0 (size T)), ts.
     unfold tree_to_triples. rewrite E. reflexivity.
+Qed.
+(* --- the enumerator used by the correspondence check lists exactly the outcomes of [breakup] --- *)
+Lemma all_breakups_spec : forall fuel t l, all_breakups fuel t = Ok l ->
+  forall ts, In ts l <-> exists choices, breakup fuel choices t = Ok (Some ts).
+Proof.
+  induction fuel as [|f IH]; intros t l E ts.
+  - simpl in *. destruct (min_paths t); [|discriminate]. inversion E; subst. simpl. split.
+    + intros [<-|[]]. exists []. reflexivity.
+    + intros [ch H]. inversion H. auto.
+  - simpl in E. simpl breakup. destruct (min_paths t) as [|p0 ps0] eqn:MP.
+    + inversion E; subst. simpl. split; [intros [<-|[]]; exists []; reflexivity|intros [ch H]; inversion H; auto].
+    + (* outcome through one popped node *)
+      set (outcome := fun (p : list nat) (ts : list triple) =>
+             match p with
+             | [] => ts = []
+             | _ => exists t' tr ts' ks, pop_at p t = Ok (t', tr) /\ breakup f ks t' = Ok (Some ts') /\ ts = tr :: ts'
+             end).
+      assert (forall ps l, (fix go (ps : list (list nat)) : res (list (list triple)) :=
+                 match ps with
+                 | [] => Ok []
+                 | [] :: r => more <- go r ;; Ok ([] :: more)
+                 | p :: r => ' (t', tr) <- pop_at p t ;; sub <- all_breakups f t' ;; more <- go r ;; Ok (map (cons tr) sub ++ more)
+                 end) ps = Ok l ->
+               forall ts, In ts l <-> exists p, In p ps /\ outcome p ts) as GO.
+      { induction ps as [|p ps IHps]; intros l' E' ts'.
+        - inversion E'; subst. simpl. split; [intros []|intros (p & [] & _)].
+        - destruct p as [|i q].
+          + apply bind_ok in E'. destruct E' as (more & Em & E'). inversion E'; subst. simpl. rewrite (IHps more Em ts'). split.
+            * intros [<-|(p & I & O)]; [exists []; split; [auto|reflexivity]|exists p; auto].
+            * intros (p & [<-|I] & O); [left; symmetry; exact O|right; eauto].
+          + apply bind_ok in E'. destruct E' as ([t' tr] & PA & E'). apply bind_ok in E'. destruct E' as (sub & Es & E').
+            apply bind_ok in E'. destruct E' as (more & Em & E'). inversion E'; subst.
+            rewrite in_app_iff, (IHps more Em ts'), in_map_iff. split.
+            * intros [(ts0 & <- & I0)|(p & I & O)].
+              -- apply (IH t' sub Es) in I0. destruct I0 as [ks Hk]. exists (i :: q). split; [left; reflexivity|].
+                 unfold outcome; cbv beta iota. exists t', tr, ts0, ks. auto.
+              -- exists p. split; [right; assumption|assumption].
+            * intros (p & [<-|I] & O).
+              -- left. unfold outcome in O; cbv beta iota in O. destruct O as (t2 & tr2 & ts2 & ks & PA2 & B2 & ->). rewrite PA in PA2. inversion PA2; subst.
+                 exists ts2. split; [reflexivity|]. apply (IH t2 sub Es). eauto.
+              -- right. eauto. }
+      rewrite (GO (p0 :: ps0) l E ts). split.
+      * intros (p & I & O). apply In_nth_error in I. destruct I as [k Ek]. destruct p as [|i q].
+        -- unfold outcome in O; cbv beta iota in O. subst ts. exists [k]. rewrite Ek. reflexivity.
+        -- unfold outcome in O; cbv beta iota in O. destruct O as (t' & tr & ts' & ks & PA & B & ->). exists (k :: ks). rewrite Ek, PA. simpl. rewrite B. reflexivity.
+      * intros [ch H]. destruct ch as [|k ks]; [discriminate|].
+        destruct (nth_error (p0 :: ps0) k) as [p|] eqn:Ek; [|discriminate]. exists p. split; [eapply nth_error_In; eauto|].
+        destruct p as [|i q]; [inversion H; reflexivity|].
+        apply bind_ok in H. destruct H as ([t' tr] & PA & H). apply bind_ok in H. destruct H as (r0 & B & H).
+        destruct r0 as [ts'|]; [|discriminate]. inversion H; subst. unfold outcome; cbv beta iota. exists t', tr, ts', ks. auto.
 Qed.
